@@ -301,14 +301,35 @@ def r_state_sym(e, R, which=("Queue", "SimpleQueue", "Condition", "SemLock")):
 # R-COND-PAIR / R-COND-TOKENS
 # ---------------------------------------------------------------------------
 
+_ALIASES = {}
+
+
+def _set_aliases(e, m):
+    """locals of method m that are plain aliases of a field of self (`lock = self._lock`, assigned once, the field never stored in m):
+    the primitives' fields are set in __init__ / __setstate__ only, so the alias and the field are the same object throughout m."""
+    _ALIASES.clear()
+    if not m.params:
+        return
+    selfn = m.params[0]
+    stored = {n.attr for n in func_nodes(m) if isinstance(n, ast.Attribute) and isinstance(n.ctx, ast.Store) and isinstance(n.value, ast.Name) and n.value.id == selfn}
+    for name in m.locals:
+        if name in m.params:
+            continue
+        defs = e.local_defs(m, name)
+        if len(defs) == 1 and isinstance(defs[0], ast.Attribute) and isinstance(defs[0].value, ast.Name) and defs[0].value.id == selfn and defs[0].attr not in stored:
+            _ALIASES[name] = defs[0].attr
+
+
 def _attr_of_self(x, selfn):
-    """'a.b' path of attribute chain rooted at self, else None."""
+    """'a.b' path of attribute chain rooted at self (or at a local alias of a field of self, see _set_aliases), else None."""
     parts = []
     while isinstance(x, ast.Attribute):
         parts.append(x.attr)
         x = x.value
     if isinstance(x, ast.Name) and x.id == selfn:
         return ".".join(reversed(parts))
+    if isinstance(x, ast.Name) and x.id in _ALIASES:
+        return ".".join([_ALIASES[x.id]] + list(reversed(parts)))
     return None
 
 
@@ -317,6 +338,7 @@ def cond_roles(e):
     the lock is released, W released in finally, X acquired with the timeout."""
     w = _m(e, "Condition", "wait")
     selfn = w.params[0]
+    _set_aliases(e, w)
     tr = [n for n in func_nodes(w) if isinstance(n, ast.Try) and n.finalbody]
     if len(tr) != 1:
         raise AnalysisError("Condition.wait: try/finally not found")
@@ -361,6 +383,7 @@ def r_cond_pair(e, R):
     w = _m(e, "Condition", "wait")
     roles, tr = cond_roles(e)
     selfn = w.params[0]
+    _set_aliases(e, w)
     g = e.cfg(w)
     body = w.node.body
     R.info["condition_roles"] = roles
@@ -464,6 +487,7 @@ def r_cond_tokens(e, R):
     for mname in ("notify", "notify_all"):
         m = _m(e, "Condition", mname)
         selfn = m.params[0]
+        _set_aliases(e, m)
         st = _stmts(m)
         # two leading assertions: ownership, wait semaphore is zero
         a0 = st[0] if st else None
@@ -480,6 +504,17 @@ def r_cond_tokens(e, R):
             ops = [op(c, selfn) for s in drains[0].body for c in ast.walk(s) if isinstance(c, ast.Call)]
             ops = [o for o in ops if o]
             okd = ops == [("try", "S")]
+        # a token operation the protocol relies on must be a statement of its own: inside an `assert` it disappears under -O /
+        # PYTHONOPTIMIZE (which loky children inherit through the environment)
+        for s in ast.walk(m.node):
+            if isinstance(s, ast.Assert):
+                for c in ast.walk(s.test):
+                    o_ = op(c, selfn)
+                    if o_ and not (o_ == ("try", "X") and isinstance(s.test, ast.UnaryOp) and isinstance(s.test.op, ast.Not)):
+                        R.fail("R-COND-TOKENS", m.short, f"assert {norm(s.test)[:60]}",
+                               f"{mname} performs the semaphore operation `{norm(c)[:50]}` inside an assert statement: with assertions stripped (python -O, "
+                               "PYTHONOPTIMIZE) the operation is not executed, the sleeper count is never decremented for a timed-out waiter and the next notify "
+                               "waits forever for a waiter that is gone", e.loc(m, s))
         R.check(okd, "R-COND-TOKENS", f"{mname}: timed-out waiters are subtracted one sleeper per woken token", m.short,
                 norm(drains[0])[:80] if drains else "", f"{mname} does not pair exactly one sleeping-count acquire with each woken-count acquire when "
                 "accounting for time-outs: later notifies wake nobody or trip the internal assertion", e.loc(m, m.node))
